@@ -417,6 +417,12 @@ class ndarray:
             raise TypeError("len() of unsized object")
         return self._shape[0]
 
+    def _pyvc_scalar(self):
+        """a 0-d array used where a number is expected"""
+        if self._shape == ():
+            return self.elem(())
+        return None
+
     def __len__(self):
         n = self.__pyvc_len__()
         c = concrete(n)
@@ -803,6 +809,7 @@ def _ceil_div_len(d, step):
     return ite(d <= 0, 0, (d + (step - 1)) // step)
 
 
+WRITE_HOOK = [None]  # race analysis: called with (buffer, inverse map) for every array write
 BOUNDS_HOOK = [None]  # numba mode: a contract collects in-bounds obligations instead of IndexError
 
 
@@ -893,11 +900,17 @@ def _rowmap(mask):
     if hit is not None and hit[2] is mask:
         return hit[0], hit[1]
     n = mask.size
+    me = mask.snapshot()
+    sh = mask._shape
+    probe = me(tuple(SV(z3.Int("probe!%d" % k), "i") for k in _py_range(_py_len(sh))))
+    if probe is True and _py_len(sh) == 1:
+        # every element is the constant True: all rows selected, in order
+        sel_id = lambda r: SV.lift(r)  # noqa: E731
+        _rowmap_cache[key] = (n, sel_id, mask)
+        return n, sel_id
     count = core.fresh_int("nsel", 0, None, register=False)
     core.assume(count <= n)
     f = z3.Function(p.fresh_name("sel"), z3.IntSort(), z3.IntSort())
-    me = mask.snapshot()
-    sh = mask._shape
 
     def sel(r):
         r = SV.lift(r)
@@ -1130,6 +1143,15 @@ def linspace(start, stop, num=50):
     return ndarray.from_elem(el, (num,), "float64")
 
 
+_pow10_fn = z3.Function("pow10", z3.RealSort(), z3.RealSort())
+
+
+def logspace(start, stop, num=50):
+    lin = linspace(start, stop, num)
+    e = lin.snapshot()
+    return ndarray.from_elem(lambda idx: SV(_pow10_fn(SV.lift(e(idx)).real()), "r"), lin.shape, "float64")
+
+
 def meshgrid(*xs, indexing="xy"):
     if indexing != "ij":
         raise Undecided("meshgrid indexing='xy'")
@@ -1224,6 +1246,8 @@ def _assign(view, value):
     buf = view.buf
     old = buf.elem
     inv = view.inv
+    if WRITE_HOOK[0] is not None:
+        WRITE_HOOK[0](buf, inv)
 
     def elem(b):
         ok, own = inv(b)
@@ -1340,10 +1364,24 @@ class ufunc:
         arrs = [o for o in ops if _py_isinstance(o, ndarray)]
         if not arrs and out is None:
             return self.fn(*ops)
+        if out is None and builtins.all(o._shape == () for o in arrs):
+            # numpy returns a scalar (not a 0-d array) when every operand is 0-d
+            vals = [o.elem(()) if _py_isinstance(o, ndarray) else o for o in ops]
+            return _np_scalar(SV.lift(self.fn(*vals)) if not _py_isinstance(self.fn(*vals), (NaN, MaybeNaN)) else self.fn(*vals), rdt)
         shapes = [o._shape for o in arrs] + ([out._shape] if out is not None else [])
         shape = _bc_shape(shapes)
         snaps = [(o.snapshot(), o._shape) if _py_isinstance(o, ndarray) else (None, o) for o in ops]
         fn = self.fn
+        int_fn = getattr(self, "int_fn", None)
+        if int_fn is not None:
+            isf = rdt.is_float()
+            if isf is False:
+                fn = int_fn
+            elif isf is not True:
+                ffn = fn
+
+                def fn(*vals, ffn=ffn, isf=isf):
+                    return _ite_val(isf, ffn(*vals), int_fn(*vals))
 
         def el(idx):
             vals = [s((_bc_index(idx, shp, shape))) if s is not None else shp for s, shp in snaps]
@@ -1494,7 +1532,9 @@ sqrt = ufunc("sqrt", 1, _nanwrap1(_sqrtf), "float")
 square = ufunc("square", 1, _nanwrap1(lambda a: _num(a) * _num(a)), "arith")
 cbrt = ufunc("cbrt", 1, _nanwrap1(_cbrtf), "float")
 reciprocal = ufunc("reciprocal", 1, _nanwrap1(lambda a: _div(1.0, a)), "arith")
+reciprocal.int_fn = _nanwrap1(lambda a: core.trunc(_div(1.0, a)))  # integer dtypes: C integer division 1/x
 log10 = ufunc("log10", 1, _nanwrap1(_log10f), "float")
+floor = ufunc("floor", 1, _nanwrap1(lambda a: (SV(core.floor(a).real(), "r") if _py_isinstance(a, SV) else float(_math.floor(a)))), "float")
 less = ufunc("less", 2, _nanwrap2(lambda a, b: _num(a) < _num(b), cmp=True), "cmp")
 less_equal = ufunc("less_equal", 2, _nanwrap2(lambda a, b: _num(a) <= _num(b), cmp=True), "cmp")
 greater = ufunc("greater", 2, _nanwrap2(lambda a, b: _num(a) > _num(b), cmp=True), "cmp")
@@ -1553,6 +1593,19 @@ def _seq_first(seq, *r, **k):
 _reduce_fns = {}
 
 
+def minmax_elim(j):
+    """instantiate  amin(a) <= a[j] <= amax(a)  (0 <= j < len(a)) for every amin/amax of this path"""
+    p = cur()
+    j = SV.lift(j)
+    for name, val, e, n in p.counter.get("@redfacts", []):
+        inr = z3.And(j.t >= 0, core.bterm(j < n))
+        v = SV.lift(_num(e((j,))))
+        if name == "amin":
+            p.add(z3.Implies(inr, core.bterm(val <= v)))
+        else:
+            p.add(z3.Implies(inr, core.bterm(val >= v)))
+
+
 def _reduction(name, a, axis, result_dt=None):
     """Reduction as an uninterpreted function of the operand's contents (a z3 lambda).
     Two reductions of element-wise equal operands are equal by congruence."""
@@ -1574,6 +1627,8 @@ def _reduction(name, a, axis, result_dt=None):
             f = _reduce_fns[key] = z3.Function("np_" + name, lam.sort(), z3.IntSort(), z3.RealSort())
         n = core.term(SV.lift(a.size))
         val = SV(f(lam, n), "r")
+        if name in ("amin", "amax") and _py_len(sh) == 1:
+            cur().counter.setdefault("@redfacts", []).append((name, val, e, sh[0]))
         return ndarray.from_elem(lambda idx: val, (), rdt)
     if axis < 0:
         axis += a.ndim
@@ -1865,6 +1920,11 @@ def argwhere(a):
     a = asarray(a)
     count, sel = _rowmap(a)
     return ndarray.from_elem(lambda idx: sel(idx[0]), (count, a.ndim), "int64")
+
+
+def shares_memory(a, b):
+    """numpy: True when the two arrays overlap in memory; in the stub views of one buffer do"""
+    return asarray(a).buf is asarray(b).buf
 
 
 def atleast_2d(a):
